@@ -347,6 +347,34 @@ fn independence_oracle(r: &mut Report, seed: u64, trials: u64, mutant: Mutant) {
     r.notes.push(format!("independence oracle: uniform crossover on genomes of length {len}, {trials} recombinations per flavour, agreement of decisions at lags {lags:?} and per-position frequencies (Hoeffding, 1e-12)"));
 }
 
+/// (e) parents of astronomic length (zero-sized genes, so they cost nothing): two-point crossover of equal-length
+/// parents returns a child of that length - cut points range over 0..=len also when len + 1 does not exist
+fn astronomic_parents(r: &mut Report, seed: u64) {
+    for (k, len) in [usize::MAX, usize::MAX - 1, usize::MAX / 2 + 1].into_iter().enumerate() {
+        for tuple in [false, true] {
+            let mut rng = SplitMix::derive(seed ^ 0xA57, k as u64 * 2 + tuple as u64);
+            let res = catch_unwind(AssertUnwindSafe(|| {
+                let (p1, p2): (Vec<()>, Vec<()>) = (vec![(); len], vec![(); len]);
+                let child = if tuple { TwoPointXo.recombine((p1, p2), &mut rng) } else { TwoPointXo.recombine([p1, p2], &mut rng) };
+                child.map(|c| c.len()).map_err(|e| dgl(&e))
+            }));
+            r.case(&format!("astronomic parents {len} tuple={tuple}"), true);
+            r.hit("two-point crossover of parents of astronomic length (zero-sized genes)");
+            let bad = match res { Ok(Ok(n)) if n == len => None, Ok(other) => Some(format!("{other:?}")), Err(_) => Some("panic".to_string()) };
+            if let Some(b) = bad {
+                r.violate(json!({"case": format!("TwoPointXo on two parents of {len} zero-sized genes (tuple form: {tuple})"), "real": b, "spec": format!("Ok(child of length {len})"),
+                    "what": "recombining equal-length parents must give a child of that length, never an error or a panic"}));
+            }
+        }
+        // different astronomic lengths are still a length mismatch
+        let mut rng = SplitMix::derive(seed ^ 0xA58, k as u64);
+        let res = catch_unwind(AssertUnwindSafe(|| TwoPointXo.recombine([vec![(); len], vec![(); len - 1]], &mut rng).map(|c| c.len()).map_err(|e| dgl(&e))));
+        if !matches!(&res, Ok(Err(e)) if e.starts_with("DifferentGenomeLength")) {
+            r.violate(json!({"case": format!("TwoPointXo on parents of {len} and {} zero-sized genes", len - 1), "real": format!("{res:?}"), "what": "parents of different lengths must be reported as DifferentGenomeLength"}));
+        }
+    }
+}
+
 fn env_mutant() -> Mutant {
     match std::env::var("UEC_LIN_MUTANT").as_deref() {
         Ok("CutExclusive") => Mutant::CutExclusive, Ok("NoSwapCuts") => Mutant::NoSwapCuts, Ok("UniformInverted") => Mutant::UniformInverted,
@@ -373,9 +401,12 @@ pub fn run_with(cfg: &Cfg, mutant: Mutant) -> Report {
             let (a, b): (Vec<bool>, Vec<bool>) = if pat == 0 { (vec![true; la], vec![false; lb]) }
                 else { ((0..la).map(|_| g.chance(1, 2)).collect(), (0..lb).map(|_| g.chance(1, 2)).collect()) };
             let top = la.max(lb) + 2;
-            for x in 0..=top {
+            // every index / range end up to two past the longer genome, and the extremes of usize (an index + 1 or a
+            // range length computed without care overflows there)
+            let idx: Vec<usize> = (0..=top).chain([usize::MAX / 2, usize::MAX - 1, usize::MAX]).collect();
+            for &x in &idx {
                 check_exchange(d, r, false, &a, &b, x, 0, mutant);
-                for y in 0..=top { check_exchange(d, r, true, &a, &b, x, y, mutant); }
+                for &y in &idx { check_exchange(d, r, true, &a, &b, x, y, mutant); }
             }
         } else {
             check_recomb(d, r, seed, i, mutant);
@@ -383,6 +414,7 @@ pub fn run_with(cfg: &Cfg, mutant: Mutant) -> Report {
     });
     coverage_oracle(&mut rep, seed, if cfg.thorough { 4000 } else { 1200 }, mutant);
     independence_oracle(&mut rep, seed, if cfg.thorough { 6000 } else { 1500 }, mutant);
+    if mutant == Mutant::None { astronomic_parents(&mut rep, seed); }
     rep.exhaustive = false;
     rep.notes.push(format!("exchange scope exhaustive: lengths 0..={l_max} x 0..={l_max}, {patterns} bit patterns, every index in [0,max+2], every (start,end) in [0,max+2]^2; {n_rand} seeded recombinations; coverage oracle for n<=5"));
     if mutant != Mutant::None { rep.notes.push(format!("SELFTEST: the real operators were replaced by the mutant {mutant:?}")); }
